@@ -17,7 +17,7 @@ def phys_view(tier, seed):
         def set_data(self, d):
             self.mem = bytes(d)
     rng = random.Random(seed)
-    factors = [10.0 ** k for k in range(-4, 5)] + [-(10.0 ** k) for k in range(-4, 5)] + [0.5, 3, -3, 0.25, 7, -0.1, 1]
+    factors = [10.0 ** k for k in range(-4, 5)] + [-(10.0 ** k) for k in range(-4, 5)] + [0.5, 3, -3, 0.25, 7, -0.1, 1, 10, 2, -4]
     types = [(od.INTEGER8, 8, True), (od.INTEGER16, 16, True), (od.INTEGER32, 32, True), (od.UNSIGNED8, 8, False),
              (od.UNSIGNED16, 16, False), (od.UNSIGNED32, 32, False), (od.INTEGER64, 64, True)]
     n_rand = 20 if tier == "quick" else 400
@@ -52,9 +52,27 @@ def phys_view(tier, seed):
                     if got_raw != expected_raw or abs(back - want) > abs(f) / 2 * (1 + 1e-9) + 1e-12:
                         failures.append({"type": code, "factor": f, "phys": want, "raw": got_raw,
                                          "expected_raw": expected_raw, "read_back": back})
+                # integer physical values with an integer factor (both operands ints: no float in the caller's hands)
+                if isinstance(f, int) and abs(f) > 1:
+                    for off in range(-abs(f) + 1, abs(f)):
+                        want = raw * f + off
+                        expected_raw = int(round(want / f))
+                        if not (lo <= expected_raw <= hi):
+                            continue
+                        evals += 1
+                        try:
+                            v.phys = want
+                            got_raw = v.raw
+                            back = v.phys
+                        except Exception as e:
+                            failures.append({"type": code, "factor": f, "phys": want, "error": repr(e)})
+                            continue
+                        if got_raw != expected_raw or abs(back - want) > abs(f) / 2 * (1 + 1e-9) + 1e-12:
+                            failures.append({"type": code, "factor": f, "phys": want, "raw": got_raw,
+                                             "expected_raw": expected_raw, "read_back": back})
                 if len(failures) > 5:
                     break
     return {"kind": "bounded", "name": "C20 phys view: raw = nearest integer of value/factor, read-back within half a step",
-            "bound": "%d integer types x %d factors (10^-4..10^4, both signs, 0.5, 3, ...) x range ends + %d random raws x 5 offsets"
+            "bound": "%d integer types x %d factors (10^-4..10^4, both signs, 0.5, 3, ...) x range ends + %d random raws x 5 offsets; integer factors also with every integer physical value between two steps"
                      % (len(types), len(factors), n_rand),
             "evaluations": evals, "failures": failures[:5]}
